@@ -138,6 +138,7 @@ var matrices = [][6]float64{
 	{0.0004, 0, 0, 0.002, 0, 0},
 	{0.001, 0, 0, 0.001, 0.1, -0.05},
 	{0, 0, 0, 0, 0, 0}, // the unset matrix of a hand-built font: everything scales to 0
+	{0.0010004, 0, 0, 0.0009996, 0, 0}, // almost, but not quite, the standard matrix
 	// thorough only from here
 	{0, 0, 0, 0.001, 0, 0},
 	{1, 0, 0, 1, 0, 0},
@@ -146,7 +147,7 @@ var matrices = [][6]float64{
 	{0, 0, 0, 0, 0.25, -0.5},
 }
 
-const quickMatrices = 7
+const quickMatrices = 8
 
 // ---------------------------------------------------------------- encodings
 
@@ -707,7 +708,7 @@ func families(tier string) []mc.Family {
 		},
 		{
 			Name: "type1/outlines-matrices", Items: 32 * nMat * nKinds * nRot, Body: fontGeom, Budget: budgets[1],
-			Rule: fmt.Sprintf("item = glyph set (32) x font matrix (%d axis-aligned: standard, negative a, negative d, d = 0, non-uniform, with translation, all zero (unset)%s) x encoding kind (nil, all .notdef, partial, naming missing glyphs, two codes -> one glyph) x %d width assignment(s); every present glyph takes every outline of a family of %d (empty, move only, lines, curves with control points outside the end-point box, several contours, closepath, points at the origin, point cancelled by the translation%s) by Choose; all query methods for all 6 names; non-trivial as above",
+			Rule: fmt.Sprintf("item = glyph set (32) x font matrix (%d axis-aligned: standard, negative a, negative d, d = 0, non-uniform, with translation, all zero (unset), within 1e-6 of the standard one%s) x encoding kind (nil, all .notdef, partial, naming missing glyphs, two codes -> one glyph) x %d width assignment(s); every present glyph takes every outline of a family of %d (empty, move only, lines, curves with control points outside the end-point box, several contours, closepath, points at the origin, point cancelled by the translation%s) by Choose; all query methods for all 6 names; non-trivial as above",
 				nMat, map[bool]string{true: ", a = 0, identity, 1/2048, negative with d = 0 and translation, translation only", false: ""}[tier == "thorough"], nRot, nOut, map[bool]string{true: ", closepath only, single point, fractional, curve without moveto, line through the origin", false: ""}[tier == "thorough"]),
 			Describe: descFont, CrashKey: func(int) string { return "C19:crash:type1/outlines-matrices" },
 		},
